@@ -294,7 +294,7 @@ class Evolver:
             "override-chain", "keyword-name", "message", "enum-value", "remove-optional", "new-structure",
             # productions that once exposed a defect (kept as a standing floor)
             "message-no-typename", "rust-keyword-name", "base-regexp", "empty-struct-property", "request-no-typename",
-            "matrix", "same-name-different-nullness", "shared-registration-method"]
+            "matrix", "same-name-different-nullness", "shared-registration-method", "diamond"]
     RUST_AND_PYTHON_KEYWORDS = ["in", "for", "as", "if", "else", "while", "continue", "break", "return", "async", "await", "try", "yield"]
 
     MATRIX_PRODUCTIONS = ["base", "ref-struct", "ref-enum", "ref-alias", "array", "map", "tuple", "ornull-first", "ornull-last", "literal",
@@ -328,6 +328,19 @@ class Evolver:
                 made.append(name)
         self.edits.append({"edit": "E1-matrix", "structures": made})
 
+    def e_diamond(self) -> None:
+        """a structure whose `extends` parent and `mixins` parent both declare the same property differently."""
+        q = self.fresh_prop_name(set())
+        a, mname, s = self.fresh_type_name("VfDa"), self.fresh_type_name("VfDm"), self.fresh_type_name("VfDs")
+        local = {q}
+        self.doc["structures"].append({"name": a, "properties": [{"name": q, "type": {"kind": "base", "name": "string"}}, self.new_property(local)]})
+        self.doc["structures"].append({"name": mname, "properties": [{"name": q, "type": {"kind": "base", "name": "uinteger"}, "optional": True}, self.new_property(local)]})
+        self.doc["structures"].append({"name": s, "properties": [self.new_property(local)],
+                                       "extends": [{"kind": "reference", "name": a}], "mixins": [{"kind": "reference", "name": mname}]})
+        self.keep_inhabitable([p for st_ in self.doc["structures"][-3:] for p in st_["properties"] if p["name"] != q])
+        self.new_structs += [a, mname, s]
+        self.edits.append({"edit": "E1-diamond", "structures": [a, mname, s], "property": q})
+
     def e_same_name(self) -> None:
         """new structures that reuse one property name with the same value type but different optional/null-admission
         (names need not be globally unique in the metamodel: `command`, `data`, `kind`... occur in many structures)."""
@@ -356,6 +369,8 @@ class Evolver:
             return self.e_matrix()
         if focus == "same-name-different-nullness":
             return self.e_same_name()
+        if focus == "diamond":
+            return self.e_diamond()
         if focus == "override-chain":
             return self.e_override_chain()
         if focus == "message":
